@@ -147,6 +147,8 @@ def _node(name, ref, card, cls, depth=0, version=None):
             ok = lib(version).SEGMENTS.get(name) is ref       # the row must reference the segment it names
         return Node(name, 'SEG', tuple(card), (), None, ok)
     ok = isinstance(ref, (tuple, list)) and len(ref) >= 2 and ref[0] in ('sequence', 'choice')
+    if ok and version is not None and name in getattr(lib(version), 'GROUPS', {}):
+        ok = lib(version).GROUPS[name] is ref                 # the row must reference the group it names
     children = []
     if ok:
         for c in ref[1]:
